@@ -8,6 +8,7 @@ import PtnModel.Proofs.TreeLength
 import PtnModel.Proofs.SymDenseTree
 import PtnModel.Proofs.SymDenseUniform
 import PtnModel.Proofs.OgSimplify
+import PtnModel.Proofs.OgSimplifyLev
 /-!
 # C17 — operator trees and state automata unfold to graphs with the same meaning
 
@@ -46,7 +47,8 @@ two building blocks.  `optrees_sem` / `optrees_consistent` are the statements fo
 theorem `Ptn.Og.simplify_sem` of property C16 (`simplify` keeps validity and the denotation).
 `optrees_consistent_presimplify`, `optrees_length_presimplify`: before `simplify` the graph is layered (start
 node on level 0, end node on level `L`) without dead ends, hence consistent and of length `L`;
-`optrees_length_partial`: length of the returned graph, assuming that `simplify` does not change `length`.
+`optrees_length`: length of the returned graph (`simplify` keeps `length` on layered graphs without dead ends,
+`Ptn.Og.simplify_length`).
 All statements are conditional on the construction returning (the guards of the code: tree height ≤ `L - istart`,
 matching charges, a leaf at distance 0 is the terminal).
 
@@ -240,17 +242,18 @@ theorem optrees_length_presimplify {trees : List (OpTree κ)} {L id : Int} {g : 
     g.length = .ok L.toNat :=
   fromOptreesPre_length h hne hstart
 
-/-- **The graph returned by `from_optrees` has the requested length.**
-PARTIAL: under the hypothesis that `simplify` does not change `length` on consistent graphs, which is not proved
-(property C16 establishes that `simplify` keeps validity, terminals and the denotation, not the length). -/
-theorem optrees_length_partial
-    (hs : ∀ (g g' : Graph κ), Valid g → g.simplify = .ok g' → g'.length = g.length)
+/-- **The graph returned by `from_optrees` has the requested length.**  `simplify` keeps `length` on layered graphs
+without dead ends (`Ptn.Og.simplify_length`: a surviving node keeps its level, no dead end is created), and the graph
+before `simplify` is such a graph (`optrees_length_presimplify`). -/
+theorem optrees_length
     {trees : List (OpTree κ)} {L id : Int} {g : Graph κ}
     (h : fromOptrees trees L id = .ok g) (hne : trees ≠ []) (hstart : ∀ t ∈ trees, 0 ≤ t.istart) :
     g.length = .ok L.toNat := by
   rw [fromOptrees_eq, Ptn.Dense.bind_ok] at h
   obtain ⟨gp, hp, hsimp⟩ := h
-  rw [hs gp g (fromOptreesPre_valid hp hstart) hsimp]
+  obtain ⟨sv, ht, ⟨ℓ, hl, h0, _⟩, _, hall⟩ := fromOptreesPre_layered hp hstart
+  have t0 : gp.term false = 0 := by simp [Graph.term, ht]
+  rw [simplify_length sv hl (noDeadEnd_of_allOut sv (hall hne)) (by rw [t0]; exact h0) hsimp]
   exact fromOptreesPre_length hp hne hstart
 
 /-- `from_optrees(ts₁, 1, 0)`: `simplify` has merged the two parallel edges -/
